@@ -27,7 +27,7 @@ from core.loader import AnalysisError, FuncInfo, Repo, calls_in, norm
 from core.report import Result
 
 from . import scan
-from .c04_norm import dotted, leaves, loc, restrict, restrict_formula, seq, show_dotted, show_loc, strip_abs, unbox
+from .c04_norm import dotted, leaves, loc, rename_atoms, restrict, seq, show_dotted, show_loc, strip_abs, unbox
 from .c04_symx import FALSE, TRUE, Event, Formula, SymX, Term, Trace, atom, atoms_of, evaluate, f_and, f_not, f_or, implies, is_const, rewrite, show, show_formula, simplify, substitute, subterms
 from .common import stmt_of, types_of, where
 
@@ -380,8 +380,6 @@ def rule_r3(repo: Repo, res: Result) -> None:
         tests = _root_tests(sx, [g for g, _ in alts], rel, root)
 
         def as_root(f: Formula) -> Formula:
-            from .c04_norm import rename_atoms
-
             return rename_atoms(f, lambda k: (atom("ROOT") if tests[k] else f_not(atom("ROOT"))) if k in tests else None)
 
         if not readable:
@@ -999,7 +997,6 @@ def rule_r5(repo: Repo, res: Result) -> None:
         else:
             prefix = restrict(prefix, e.guard)
             alts = list(prefix[1]) if prefix[0] == "phi" else [(TRUE, prefix)]
-            empty = [(g, v) for g, v in alts if is_const(v, "")]
             main = [(g, v) for g, v in alts if not is_const(v, "")]
             ds = [dotted(v) for _g, v in main]
             key = f"{tag}::absolute-import prefix"
@@ -1016,7 +1013,7 @@ def rule_r5(repo: Repo, res: Result) -> None:
                 res.add("C04.R5", key + " [source]", False, f"the absolute-import prefix is `{show_dotted(d)}`: not module_path.parent relative to root_path.parent in dotted notation", where(e.fi, e.node), kind="structural")
             else:
                 res.add("C04.R5", key + " [source]", True, "absolute-import prefix = module_path.parent relative to root_path.parent, dotted", where(e.fi, e.node), kind="structural")
-            # empty exactly when root and module path coincide
+            # tests of 'root_path equals module_path' in the guards of the alternatives
             tests = {}
             for k_ in sorted({a_ for g, _ in alts for a_ in atoms_of(g)}):
                 t = sx.atoms.get(k_)
@@ -1031,8 +1028,6 @@ def rule_r5(repo: Repo, res: Result) -> None:
                         tests[k_] = True
                 elif loc(t) == ("attr", rel_mr, "parts"):
                     tests[k_] = False
-            from .c04_norm import rename_atoms
-
             def as_same(f: Formula) -> Formula:
                 return rename_atoms(f, lambda k_: (atom("SAME") if tests[k_] else f_not(atom("SAME"))) if k_ in tests else None)
 
